@@ -56,6 +56,12 @@ type gluecacheWorld struct {
 	Revs  []map[string][]byte // revision -> repository files
 	Keys  []gluecacheKey      // Keys[0] is the key that signs the index
 	World []string
+	// a second repository (https://repob.test, same signing key): ONE index revision that offers a newer `app`
+	RepoB map[string][]byte
+	// the server dimension: the index of repository 0 is served WITHOUT an ETag, with Last-Modified only; LastMod[r] is
+	// the second in which revision r was published (equal seconds: a republication within one second / with a clamped mtime)
+	NoEtag  bool
+	LastMod []int
 }
 
 func (w *gluecacheWorld) save(path string) error {
@@ -88,7 +94,28 @@ type gluecacheStep struct {
 	Keys    []int           `json:"keys"` // keyring: indices into the world's keys (0 = the signing key), in this order
 	Fault   *gluecacheFault `json:"fault,omitempty"`
 	Reset   bool            `json:"reset,omitempty"` // reference builds only: empty the process-wide memo tables first
+	Repos   []int           `json:"repos,omitempty"` // configured repositories (0 = repo.test, 1 = repob.test); absent: [0]
 }
+
+func (st gluecacheStep) repos() []int {
+	if len(st.Repos) == 0 {
+		return []int{0}
+	}
+	return st.Repos
+}
+
+func (st gluecacheStep) hasRepoB() bool {
+	for _, r := range st.repos() {
+		if r == 1 {
+			return true
+		}
+	}
+	return false
+}
+
+const gluecacheHostB = "repob.test"
+
+var gluecacheRepoURL = []string{"https://repo.test", "https://" + gluecacheHostB}
 
 type gluecacheProc struct {
 	Steps []gluecacheStep `json:"steps"`
@@ -127,6 +154,7 @@ type gluecacheTransport struct {
 }
 
 func gluecacheIndexEtag(rev int, body []byte) string { return fmt.Sprintf("idx-%d-%s", rev, indexEtag(body)) }
+func gluecacheIndexEtagB(body []byte) string          { return "idxb-" + indexEtag(body) }
 
 func (t *gluecacheTransport) RoundTrip(req *http.Request) (*http.Response, error) {
 	t.mu.Lock()
@@ -139,12 +167,27 @@ func (t *gluecacheTransport) RoundTrip(req *http.Request) (*http.Response, error
 	}
 	var body []byte
 	etag := ""
+	lastMod := ""
 	target := -2
 	switch {
+	case req.URL.Host == gluecacheHostB:
+		body = t.w.RepoB[path]
+		if path == "x86_64/APKINDEX.tar.gz" && body != nil {
+			etag = gluecacheIndexEtagB(body)
+		}
 	case path == "x86_64/APKINDEX.tar.gz":
 		body = t.w.Revs[t.rev][path]
 		etag = gluecacheIndexEtag(t.rev, body)
 		target = -1
+		if t.w.NoEtag {
+			// a plain file server: no ETag, Last-Modified with one-second resolution
+			etag = ""
+			sec := 0
+			if t.rev < len(t.w.LastMod) {
+				sec = t.w.LastMod[t.rev]
+			}
+			lastMod = time.Unix(1700000000+int64(sec), 0).UTC().Format(http.TimeFormat)
+		}
 	case strings.HasSuffix(path, ".apk"):
 		// every apk of every revision stays downloadable
 		for _, files := range t.w.Revs {
@@ -166,6 +209,9 @@ func (t *gluecacheTransport) RoundTrip(req *http.Request) (*http.Response, error
 	if etag != "" {
 		resp.Header.Set("ETag", `"`+etag+`"`)
 	}
+	if lastMod != "" {
+		resp.Header.Set("Last-Modified", lastMod)
+	}
 	if req.Method == http.MethodHead {
 		resp.Body = io.NopCloser(bytes.NewReader(nil))
 		return resp, nil
@@ -178,6 +224,9 @@ func (t *gluecacheTransport) RoundTrip(req *http.Request) (*http.Response, error
 			resp.Header.Set("Content-Range", fmt.Sprintf("bytes %d-%d/%d", from, len(body)-1, len(body)))
 			if etag != "" {
 				resp.Header.Set("ETag", `"`+etag+`"`)
+			}
+			if lastMod != "" {
+				resp.Header.Set("Last-Modified", lastMod)
 			}
 			return resp, nil
 		}
@@ -219,7 +268,10 @@ func gluecacheBuild(w *gluecacheWorld, t *gluecacheTransport, root string, st gl
 	cacheDir := filepath.Join(root, "dev.chainguard.go-apk") // = what apk.WithCache("") derives from os.UserCacheDir()
 	ic := types.ImageConfiguration{}
 	ic.Contents.Packages = w.World
-	ic.Contents.RuntimeRepositories = []string{"https://repo.test"}
+	ic.Contents.RuntimeRepositories = nil
+	for _, r := range st.repos() {
+		ic.Contents.RuntimeRepositories = append(ic.Contents.RuntimeRepositories, gluecacheRepoURL[r%len(gluecacheRepoURL)])
+	}
 	for _, i := range st.Keys {
 		ic.Contents.Keyring = append(ic.Contents.Keyring, gluecacheKeyURL(w.Keys[i]))
 	}
@@ -381,6 +433,9 @@ type cGlue struct {
 	KeyDir  []int           `json:"key_dir,omitempty"`  // key i lives in remote directory keys (0) or morekeys (1)
 	KeyEtag []int           `json:"key_etag,omitempty"` // key i is served with ETag number KeyEtag[i] (equal numbers: two URLs, one ETag value)
 	Procs   []gluecacheProc `json:"procs"`
+	RepoB   bool            `json:"repo_b,omitempty"`   // the world has the second repository (steps name it in `repos`)
+	NoEtag  bool            `json:"no_etag,omitempty"`  // the index of repository 0 is served without an ETag (Last-Modified only)
+	LastMod []int           `json:"last_mod,omitempty"` // the second in which revision r was published
 }
 
 var (
@@ -457,6 +512,59 @@ func gluecacheGen(r *Rng, c *cCase, i int, tier string) {
 	rev := 0
 	np := r.Range(1, 3)
 	style := r.Intn(3) // 0: every build with default options, 1: every build the CLI way, 2: mixed
+	// two more dimensions: the configured repositories change between builds (a second repository is added after
+	// the cache was filled, or dropped again); the server sends no ETag for the index, only Last-Modified
+	var repos []int
+	switch x := r.Intn(100); {
+	case x < 24:
+		g.RepoB = true
+		for k := 1; k < c.NRev; k++ {
+			// (repository B's app shadows repository 0's: every revision must differ in something else as well, or two
+			// repository states would have one and the same image)
+			c.Bumps[k][0] = true
+		}
+		repos = []int{0}
+		if r.Chance(30) {
+			repos = []int{0, 1}
+		}
+	case x < 40:
+		g.NoEtag = true
+		if c.NRev < 2 {
+			c.NRev = r.Range(2, 3)
+			for len(c.Bumps) < c.NRev {
+				b := make([]bool, cacheNPkg)
+				b[r.Intn(cacheNPkg)] = true
+				c.Bumps = append(c.Bumps, b)
+			}
+		}
+		sec := 0
+		for k := 0; k < c.NRev; k++ {
+			if k > 0 && r.Chance(40) {
+				sec += r.Range(1, 3)
+			}
+			g.LastMod = append(g.LastMod, sec) // (equal seconds: republished within one second / clamped mtime)
+		}
+	}
+	flipRepos := func() {
+		if g.RepoB && r.Chance(45) {
+			if len(repos) == 1 {
+				repos = []int{0, 1}
+			} else {
+				repos = []int{0}
+			}
+		}
+	}
+	if g.RepoB && r.Chance(65) {
+		// the directed shape: the cache is filled over repos, then a repository is added and the build is offline
+		first := gluecacheStep{Mode: Pick(r, []string{"own", "default"}), Rev: rev, Keys: keys, Repos: repos}
+		g.Procs = append(g.Procs, gluecacheProc{Steps: []gluecacheStep{first}})
+		if len(repos) == 1 {
+			repos = []int{0, 1}
+		} else {
+			repos = []int{0}
+		}
+		g.Procs = append(g.Procs, gluecacheProc{Steps: []gluecacheStep{{Mode: "own", Offline: true, Rev: rev, Keys: keys, Repos: repos}}})
+	}
 	for p := 0; p < np; p++ {
 		var pr gluecacheProc
 		ns := r.Range(1, 4)
@@ -467,7 +575,8 @@ func gluecacheGen(r *Rng, c *cCase, i int, tier string) {
 			if r.Chance(15) {
 				keys = keyset()
 			}
-			st := gluecacheStep{Mode: "own", Rev: rev, Keys: keys}
+			flipRepos()
+			st := gluecacheStep{Mode: "own", Rev: rev, Keys: keys, Repos: repos}
 			if style == 0 || (style == 2 && r.Chance(50)) {
 				st.Mode = "default"
 			}
@@ -475,12 +584,12 @@ func gluecacheGen(r *Rng, c *cCase, i int, tier string) {
 				st.Mode = "none" // a cache-less build in between must not matter
 			}
 			switch x := r.Intn(100); {
-			case x < 14 && st.Mode != "none":
+			case x < 14 && st.Mode != "none" && !g.NoEtag:
 				st.Fault = &gluecacheFault{Target: -1, Cut: Pick(r, []int{0, 1, 300, 500, 900, 999}), NoLen: r.Chance(35)}
 			case x < 28 && st.Mode != "none":
 				st.Fault = &gluecacheFault{Target: Pick(r, keys), Cut: Pick(r, []int{0, 300, 500, 900, 999}), NoLen: r.Chance(35)}
 			case x < 40 && (p > 0 || s > 0):
-				st = gluecacheStep{Mode: "own", Offline: true, Rev: rev, Keys: keys}
+				st = gluecacheStep{Mode: "own", Offline: true, Rev: rev, Keys: keys, Repos: repos}
 			}
 			pr.Steps = append(pr.Steps, st)
 			if st.Fault != nil {
@@ -496,7 +605,7 @@ func gluecacheGen(r *Rng, c *cCase, i int, tier string) {
 						g.Procs = append(g.Procs, pr)
 						pr = gluecacheProc{}
 					}
-					pr.Steps = append(pr.Steps, gluecacheStep{Mode: "own", Offline: true, Rev: rev, Keys: keys})
+					pr.Steps = append(pr.Steps, gluecacheStep{Mode: "own", Offline: true, Rev: rev, Keys: keys, Repos: repos})
 				}
 				if newProc {
 					g.Procs = append(g.Procs, pr)
@@ -504,13 +613,18 @@ func gluecacheGen(r *Rng, c *cCase, i int, tier string) {
 				}
 				pr.Steps = append(pr.Steps, st2)
 				if r.Chance(60) {
-					pr.Steps = append(pr.Steps, gluecacheStep{Mode: "own", Offline: true, Rev: rev, Keys: keys})
+					pr.Steps = append(pr.Steps, gluecacheStep{Mode: "own", Offline: true, Rev: rev, Keys: keys, Repos: repos})
 				}
 			}
 		}
 		g.Procs = append(g.Procs, pr)
 	}
-	last := gluecacheProc{Steps: []gluecacheStep{{Mode: "own", Rev: rev, Keys: keys}, {Mode: "own", Offline: true, Rev: rev, Keys: keys}}}
+	last := gluecacheProc{Steps: []gluecacheStep{{Mode: "own", Rev: rev, Keys: keys, Repos: repos}, {Mode: "own", Offline: true, Rev: rev, Keys: keys, Repos: repos}}}
+	if g.RepoB && r.Chance(40) {
+		// a repository is added right before the last offline build
+		flipRepos()
+		last.Steps[1].Repos = repos
+	}
 	if style == 0 {
 		last.Steps[0].Mode = "default"
 	}
@@ -548,10 +662,25 @@ type gluecacheEnv struct {
 	w       *gluecacheWorld
 	nproc   int
 	refs    map[string]gluecacheStepRes // "rev|k,k,k" -> cache-less build
-	idbRev  map[[32]byte]int
+	idbRev  map[[32]byte]gluecacheImg
 }
 
-func gluecacheRefKey(rev int, keys []int) string { return fmt.Sprintf("%d|%v", rev, keys) }
+// gluecacheImg: which cache-less image an installed db belongs to: the index revision of repository 0 and whether
+// repository B's index was part of the resolution
+type gluecacheImg struct {
+	rev int
+	b   bool
+}
+
+func gluecacheRefKey(rev int, keys []int, repos []int) string {
+	b := ""
+	for _, r := range repos {
+		if r == 1 {
+			b = "b"
+		}
+	}
+	return fmt.Sprintf("%d%s|%v", rev, b, keys)
+}
 
 func gluecacheDirName(d int) string {
 	if d <= 0 {
@@ -576,7 +705,7 @@ func gluecacheSetup(c *cCase) (*gluecacheEnv, string) {
 		return nil, err.Error()
 	}
 	e := &gluecacheEnv{scratch: scratch, world: filepath.Join(scratch, "world.gob"), root: filepath.Join(scratch, "xdg"),
-		refs: map[string]gluecacheStepRes{}, idbRev: map[[32]byte]int{}}
+		refs: map[string]gluecacheStepRes{}, idbRev: map[[32]byte]gluecacheImg{}}
 	w := &gluecacheWorld{World: []string{"app"}}
 	var keyPEM []byte
 	for r := 0; r < c.NRev; r++ {
@@ -602,6 +731,18 @@ func gluecacheSetup(c *cCase) (*gluecacheEnv, string) {
 		key.Etag = fmt.Sprintf("key-etag-%d", et)
 		w.Keys = append(w.Keys, key)
 	}
+	if g.RepoB {
+		// repository B: a newer app (depends on lib, which only repository 0 has), signed with the same key
+		appB := SPkg{Name: "app", Version: "1.9-r0", Origin: "app", Deps: []string{"lib"},
+			Files: []SFile{
+				{Path: "usr", Type: "dir", Mode: 0o755},
+				{Path: "usr/share", Type: "dir", Mode: 0o755},
+				{Path: "usr/share/app", Type: "dir", Mode: 0o755},
+				{Path: "usr/share/app/version", Type: "file", Mode: 0o644, Content: fmt.Sprintf("app from repository B %x\n", c.Seed)},
+			}}
+		w.RepoB = BuildSynthRepo([]SPkg{appB}, []string{"x86_64"}).Files
+	}
+	w.NoEtag, w.LastMod = g.NoEtag, g.LastMod
 	e.w = w
 	if err := w.save(e.world); err != nil {
 		return e, err.Error()
@@ -613,10 +754,16 @@ func gluecacheSetup(c *cCase) (*gluecacheEnv, string) {
 	for _, p := range g.Procs {
 		for _, st := range p.Steps {
 			for r := 0; r <= st.Rev; r++ { // (an offline build may legitimately reproduce an earlier revision)
-				k := gluecacheRefKey(r, st.Keys)
-				if !seen[k] {
-					seen[k] = true
-					ref.Steps = append(ref.Steps, gluecacheStep{Mode: "none", Rev: r, Keys: st.Keys, Reset: true})
+				for _, rp := range [][]int{{0}, {0, 1}} {
+					if len(rp) == 2 && !g.RepoB {
+						continue
+					}
+					// (both repository sets: an image over FEWER repositories than configured must be recognised as such)
+					k := gluecacheRefKey(r, st.Keys, rp)
+					if !seen[k] {
+						seen[k] = true
+						ref.Steps = append(ref.Steps, gluecacheStep{Mode: "none", Rev: r, Keys: st.Keys, Reset: true, Repos: rp})
+					}
 				}
 			}
 		}
@@ -634,8 +781,8 @@ func gluecacheSetup(c *cCase) (*gluecacheEnv, string) {
 		if res[i].Status != "ok" {
 			return e, "reference build failed: " + tailStr(res[i].Status, 300)
 		}
-		e.refs[gluecacheRefKey(st.Rev, st.Keys)] = res[i]
-		e.idbRev[sha256.Sum256(res[i].Idb)] = st.Rev
+		e.refs[gluecacheRefKey(st.Rev, st.Keys, st.repos())] = res[i]
+		e.idbRev[sha256.Sum256(res[i].Idb)] = gluecacheImg{st.Rev, st.hasRepoB()}
 	}
 	return e, ""
 }
@@ -646,9 +793,14 @@ func (e *gluecacheEnv) outcome(st gluecacheStep, r gluecacheStepRes) string {
 	if r.Status != "ok" {
 		return "err"
 	}
-	rev, ok := e.idbRev[sha256.Sum256(r.Idb)]
+	img, ok := e.idbRev[sha256.Sum256(r.Idb)]
 	if !ok {
 		return "ok:img?"
+	}
+	rev := img.rev
+	imgRepos, revTok := []int{0}, fmt.Sprint(rev)
+	if img.b {
+		imgRepos, revTok = []int{0, 1}, fmt.Sprint(rev)+"b"
 	}
 	var names []string
 	for n := range r.Keys {
@@ -687,11 +839,11 @@ func (e *gluecacheEnv) outcome(st gluecacheStep, r gluecacheStepRes) string {
 		parts = append(parts, fmt.Sprintf("%d=%s", ki, content))
 	}
 	if identity {
-		if ref, ok := e.refs[gluecacheRefKey(rev, st.Keys)]; !ok || ref.Digest != r.Digest {
+		if ref, ok := e.refs[gluecacheRefKey(rev, st.Keys, imgRepos)]; !ok || ref.Digest != r.Digest {
 			return "ok:img?"
 		}
 	}
-	return fmt.Sprintf("ok:%d:%s", rev, strings.Join(parts, "+"))
+	return fmt.Sprintf("ok:%s:%s", revTok, strings.Join(parts, "+"))
 }
 
 // gluecacheAbstractDir: sorted tokens `E<dir>.<etag>=<L|R><body|P|X|D>` for every etag entry (dir: 0 = APKINDEX of
@@ -710,6 +862,10 @@ func (e *gluecacheEnv) abstractDir(g *cGlue) string {
 		fmt.Sscanf(k.Etag, "key-etag-%d", &n)
 		etagID[base32.StdEncoding.EncodeToString([]byte(k.Etag))] = n
 		bodies[i] = k.PEM
+	}
+	if b := e.w.RepoB["x86_64/APKINDEX.tar.gz"]; b != nil {
+		etagID[base32.StdEncoding.EncodeToString([]byte(gluecacheIndexEtagB(b)))] = 200
+		bodies[200] = b
 	}
 	classify := func(b []byte) string {
 		ids := make([]int, 0, len(bodies))
@@ -739,6 +895,8 @@ func (e *gluecacheEnv) abstractDir(g *cGlue) string {
 		base := filepath.Base(p)
 		dir := -1
 		switch {
+		case parent == "APKINDEX" && strings.Contains(rel, gluecacheHostB):
+			dir = 50 // the index entries of repository B
 		case parent == "APKINDEX":
 			dir = 0
 		case strings.HasPrefix(parent, "keys"):
@@ -799,7 +957,15 @@ func gluecacheStepToken(st gluecacheStep) string {
 	if st.Offline {
 		mode = "off"
 	}
-	return fmt.Sprintf("%s:%d:%s:%s", mode, st.Rev, strings.Join(ks, "+"), f)
+	tok := fmt.Sprintf("%s:%d:%s:%s", mode, st.Rev, strings.Join(ks, "+"), f)
+	if len(st.Repos) > 0 {
+		var rs []string
+		for _, r := range st.Repos {
+			rs = append(rs, fmt.Sprint(r))
+		}
+		tok += ":" + strings.Join(rs, "+")
+	}
+	return tok
 }
 
 // runGlue: line `cache-glue \t keys \t history \t goDir \t goOutcomes \t goCwd`
@@ -817,6 +983,7 @@ func runGlue(c *cCase) []Step {
 	var procs, outs, canon, cwdAll, tags []string
 	var descs []string
 	noImpl := false
+	seenRepoB, prevB, havePrev := false, false, false
 	for _, p := range g.Procs {
 		if len(p.Steps) == 0 {
 			continue
@@ -864,6 +1031,18 @@ func runGlue(c *cCase) []Step {
 			if i > 0 && p.Steps[i-1].Rev != st.Rev {
 				tags = append(tags, "glue-new-revision-inside-process:"+st.Mode)
 			}
+			if g.RepoB {
+				if st.Offline && st.hasRepoB() && !seenRepoB {
+					tags = append(tags, "glue-offline-over-a-never-cached-repository:"+strings.SplitN(o, ":", 2)[0])
+				}
+				if !st.Offline && st.Mode != "none" && st.hasRepoB() {
+					seenRepoB = true
+				}
+				if havePrev && prevB != st.hasRepoB() {
+					tags = append(tags, "glue-repositories-changed-between-builds")
+				}
+				prevB, havePrev = st.hasRepoB(), true
+			}
 			if o == "err" {
 				descs = append(descs, fmt.Sprintf("%s → %s", gluecacheStepToken(st), tailStr(strings.ReplaceAll(res[i].Status, "\n", " "), 160)))
 			}
@@ -889,7 +1068,20 @@ func runGlue(c *cCase) []Step {
 	}
 	dir := e.abstractDir(g)
 	hist := strings.Join(procs, "|")
-	line := strings.Join([]string{"cache-glue", strings.Join(ks, ","), hist, dir, strings.Join(outs, ","), strings.Join(cwdAll, ",")}, "\t")
+	fields := []string{"cache-glue", strings.Join(ks, ","), hist, dir, strings.Join(outs, ","), strings.Join(cwdAll, ",")}
+	if g.NoEtag {
+		fields = append(fields, "noetag")
+		tags = append(tags, "glue-index-without-etag")
+		for k := 1; k < len(g.LastMod); k++ {
+			if g.LastMod[k] == g.LastMod[k-1] {
+				tags = append(tags, "glue-republished-within-one-second")
+			}
+		}
+	}
+	if g.RepoB {
+		tags = append(tags, "glue-two-repositories")
+	}
+	line := strings.Join(fields, "\t")
 	desc := fmt.Sprintf("keys=%s history=%s → %s", strings.Join(ks, ","), hist, strings.Join(outs, ","))
 	if len(descs) > 0 {
 		desc += " [" + strings.Join(descs, "; ") + "]"
